@@ -518,7 +518,10 @@ func (s *Store) hasExpired(cs *cachedSecret) bool {
 	} else if s.expiryAge <= 0 {
 		return false // no expiry age is defined
 	}
-	age := s.timeNow().UTC().Sub(cs.lastAccessTime())
+	// The last-access stamp has whole-second resolution: the read it records
+	// may have happened up to a second after the stamp, so do not count that
+	// second towards the age.
+	age := s.timeNow().UTC().Sub(cs.lastAccessTime()) - time.Second
 	return age > s.expiryAge
 }
 
